@@ -37,13 +37,13 @@ ASSUME \A tx \in BaseSet : RoundTrip(tx) /\ SizesAgree(tx) /\ IdsRelate(tx) /\ V
 ASSUME \A t \in WireStrings \cup Depth2 : Canonical(t)
 
 \* headers, blocks, parameters, stand-alone pieces ---------------------------------------------
-HeaderSet == IF Tier = "quick" THEN { h \in FamHeader : h.version = "20000000" \/ h.ext.kind = "proof" } ELSE FamHeader
+HeaderSet == (IF Tier = "quick" THEN { h \in FamHeader : h.version = "20000000" \/ h.ext.kind = "proof" } ELSE FamHeader) \cup FamHeaderWide
 HeaderCase(h) == [h |-> h, toks |-> EncHeader(h), hashpre |-> BlockHashPre(h), cleared |-> EncHeader(ClearWitness(h)),
                   fields |-> SetToSeq(HeaderFields(h))]
 HeaderWire(t) == LET r == DecHeader(t) IN
   [ty |-> "BlockHeader", toks |-> t, ok |-> (r.ok /\ Len(r.rest) = 0), pok |-> r.ok, consumed |-> IF r.ok THEN Consumed(t, r) ELSE 0,
    val |-> IF r.ok THEN NormHeader(r.val) ELSE << >>]
-HeaderStrings == UNION { Mutants(EncHeader(h)) : h \in { x \in HeaderSet : x.version = "20000000" } }
+HeaderStrings == UNION { Mutants(EncHeader(h)) : h \in { x \in HeaderSet \ FamHeaderWide : x.version = "20000000" } }
 BlockCase(b) == [b |-> b, toks |-> EncBlock(b), htoks |-> EncHeader(b.header), size |-> BlockSize(b), weight |-> BlockWeight(b), hashpre |-> BlockHashPre(b.header)]
 ParamSet == { MkP("c", d) : d \in ParamKinds }
 ParamWire(t) == LET r == DecParams(t) IN
@@ -69,9 +69,9 @@ ASSUME ndJsonSerialize(IOEnv.OUT_BASE, SetToSeq({ BaseCase(tx) : tx \in BaseSet 
 ASSUME ndJsonSerialize(IOEnv.OUT_WIRE, SetToSeq({ WireCase(t) : t \in WireStrings \cup Depth2 }))
 ASSUME ndJsonSerialize(IOEnv.OUT_HEADER, SetToSeq({ HeaderCase(h) : h \in HeaderSet }))
 ASSUME ndJsonSerialize(IOEnv.OUT_HWIRE, SetToSeq({ HeaderWire(t) : t \in HeaderStrings } \cup { ParamWire(t) : t \in ParamStrings }))
-ASSUME ndJsonSerialize(IOEnv.OUT_BLOCK, SetToSeq({ BlockCase(b) : b \in FamBlock }))
+ASSUME ndJsonSerialize(IOEnv.OUT_BLOCK, SetToSeq({ BlockCase(b) : b \in FamBlock \cup FamBlockWide }))
 ASSUME ndJsonSerialize(IOEnv.OUT_PIECE, SetToSeq(PieceCases))
-ASSUME PrintT(<<"EMITTED2", Cardinality(HeaderSet), Cardinality(HeaderStrings), Cardinality(ParamStrings), Cardinality(FamBlock), Cardinality(PieceCases)>>)
+ASSUME PrintT(<<"EMITTED2", Cardinality(HeaderSet), Cardinality(HeaderStrings), Cardinality(ParamStrings), Cardinality(FamBlock \cup FamBlockWide), Cardinality(PieceCases)>>)
 ASSUME PrintT(<<"EMITTED", Cardinality(BaseSet), Cardinality(WireStrings \cup Depth2),
                 Cardinality({ t \in WireStrings : DecTx(t).ok })>>)
 =============================================================================
